@@ -29,7 +29,13 @@ def evaluate(pid, tier, tree, seed=0, write=False, skip_a3=False):
     rep.explanation = getattr(mod, "EXPLANATION", "")
     rep.trusted = list(getattr(mod, "TRUSTED_BASE", ["T1", "T4"]))
     rep.assumptions = list(getattr(mod, "ASSUMPTIONS", []))
-    mod.run(tree, rep, tier)
+    try:
+        mod.run(tree, rep, tier)
+    except AnalysisError as e:
+        # a violation already established stands, even if a later rule could not be evaluated on this tree
+        if not rep.violations:
+            raise
+        rep.extra["incomplete"] = "evaluation stopped early: %s" % e
     return rep, mod
 
 
